@@ -47,7 +47,7 @@ PROBES = ["reconnect", "late-finaliser", "two-in-flight", "send-races-disconnect
           "structured", "silent", "broadcast", "broadcast-poll", "three-endpoints", "two-socket-ids", "connection-error-after-disconnect",
           "recv-timeout", "lock-contended", "stalled-thread", "late-starter", "connect-timeout-then-retry", "connect-attempt-races-with-peer",
           "broadcast-endpoint-leaves-before-the-others-have-received", "communication-log-enabled",
-          "poll-inside-connection-lost-callback"]
+          "poll-inside-connection-lost-callback", "empty-message"]
 
 _mods: Dict[str, Any] = {}
 
@@ -167,6 +167,8 @@ def run(ch: Choices, opts: Dict[str, Any]) -> Dict[str, Any]:
     trace = Trace()
     calm = ch.flag(1, 10, "calm")
     sc = gen_scenario(ch, calm, no_cb_reconnect="reconnect-with-callbacks" in opts.get("avoid", ()), tier=opts.get("tier", "quick"), avoid=opts.get("avoid", ()))
+    if "script" in sc and not calm:
+        sc["empty_payload"] = ch.flag(1, 4, "empty-payload")      # one of the run's messages is the empty string
     names = sc["names"]
     sw = (1, 1) if calm else ch.pick([(1, 2), (1, 6), (1, 20)])
     files = [sh.__file__, ts.__file__, bc.__file__]
@@ -227,6 +229,7 @@ def run(ch: Choices, opts: Dict[str, Any]) -> Dict[str, Any]:
     cb_log: Dict[Tuple[str, str, int], List[Tuple[int, str]]] = {}
     lost_log: List[Tuple[int, str]] = []
     payload_ctr = [0]
+    empty_used = [False]
     done_ctr = [0]
     bsent_ctr = [0]
     sample = {"endpoints": names, "broadcast": sc["broadcast"], "script": sc["script"],
@@ -396,6 +399,10 @@ def run(ch: Choices, opts: Dict[str, Any]) -> Dict[str, Any]:
                     if ev[0] == "bsend":
                         payload_ctr[0] += 1
                         p = f"m{payload_ctr[0]}"
+                        if sc.get("empty_payload") and not empty_used[0]:
+                            empty_used[0] = True
+                            p = ""            # an empty message is a message
+                            bump(probes, "empty-message")
                         e = record(me, ("bsend", p))
                         try:
                             chan.send(p)
@@ -480,6 +487,10 @@ def run(ch: Choices, opts: Dict[str, Any]) -> Dict[str, Any]:
                 if k == "send":
                     payload_ctr[0] += 1
                     p = f"m{payload_ctr[0]}" + (" EOF" if len(ev) > 5 and ev[5] else "")   # (the logging wrappers treat EOF specially)
+                    if sc.get("empty_payload") and not empty_used[0] and ev[4] == "plain":
+                        empty_used[0] = True
+                        p = ""            # an empty message is a message
+                        bump(probes, "empty-message")
                     e = record(me, ("send", peer, sid, ev[4], p))
                     try:
                         if ev[4] == "structured":
